@@ -76,6 +76,11 @@ class MacroVisitor(ExplorerScriptVisitor):
     def visitMacrodef_children(self, macrodef_handler: MacroDefCompileHandler) -> ExplorerScriptMacro:
         """Visit the children of the macro def, after the macro resolution order has been processed"""
         self._root_handler = macrodef_handler
+        # Every macro needs it's own source map. With one builder for all macros of a file, the source map of
+        # a macro also listed the position marks of the other macros, and building a macro that calls another
+        # macro of the same file copied the list of macro position marks into itself while iterating over it.
+        self.source_map_builder = SourceMapBuilder()
+        self.compiler_ctx.source_map_builder = self.source_map_builder
         self.visitChildren(macrodef_handler.ctx)
 
         blueprints = self._root_handler.collect()
